@@ -67,6 +67,11 @@ CONSUMERS = [
     ("cond_lit_head", "c :- db(X,Y), {M2} : db(X,Z)."),
     ("two_uses", "c(X) :- {MA}. e(Y) :- {MB}."),
     ("unused", "c(X) :- db(X,_)."),
+    ("neg_head", "c(X) :- db(X,_). not {MA} :- db(X,X)."),
+    ("neg_head_only", "not {M} :- db(X,Y), X < Y. c(X) :- db(X,_)."),
+    ("edge", "c(X) :- db(X,_). #edge (X,Y) : {M}."),
+    ("edge_anon", "c(X) :- db(X,_). #edge (X,X+1) : {MA}."),
+    ("clash_names", "c(X0,Y0) :- {M0}, db(X0,_), db(Y0,_)."),
 ]
 
 OUTS = [("empty", []), ("c", [["c", 1], ["c", 2], ["c", 0]]), ("m", [["m", 2], ["m", 1], ["m", 3]]), ("auto", "auto")]
@@ -94,12 +99,14 @@ def jobs(tier: str):
                             "head_only", "anon_all", "constraint", "weak", "show_term", "bodyagg_tuple"):
                         continue
                     if mname in ("copy_proj", "copy_proj2"):
-                        if "{M}" in ctext or "{M2}" in ctext or "{MB}" in ctext:
+                        if "{M}" in ctext or "{M2}" in ctext or "{MB}" in ctext or "{M0}" in ctext:
                             continue
-                        cons = ctext.format(MA="m(X)", MAA="m(_)", M="", MB="", M2="")
+                        cons = ctext.format(MA="m(X)", MAA="m(_)", M="", MB="", M2="", M0="")
                     else:
                         m, ma, mb, maa, m2 = atoms(mname)
-                        cons = ctext.format(M=m, MA=ma, MB=mb, MAA=maa, M2=m2)
+                        # the names X0/Y0 are the ones the copy-rule removal generates itself
+                        m0 = m.replace("X", "Y0").replace("Y,", "X0,").replace("Y)", "X0)")
+                        cons = ctext.format(M=m, MA=ma, MB=mb, MAA=maa, M2=m2, M0=m0)
                     prog = "\n".join(x for x in (ptext, mtext, cons) if x)
                     universe = ["db(1,2)", "db(2,1)", "db(2,2)", "db(1,3)"]
                     if pname == "input":
